@@ -144,20 +144,29 @@ def run(ctx):
         if not {'clear', 'removal', 'linking insert'} <= set(found_roles):
             ctx.anchor_missing(RULE, 'complete transactions of %s (found %s)' % (tree, found_roles), PROPS)
         partial = {p: f for p, f in writers.items() if p not in trans}
-        # L1
+        # L1 (containment) by propagation: whoever calls a partial writer takes part in the update and is itself held to
+        # L2 from that call on (a complete transaction may be called from anywhere)
+        by_path = {f.path: f for f in fam_fns}
+        changed = True
+        while changed:
+            changed = False
+            for f in fam_fns:
+                if f.path in partial or f.path in trans or f.path in ctor:
+                    continue
+                callees_p = [t for c, t in prog.callees(f) if c.kind == 'call' and t.path in partial]
+                if callees_p:
+                    partial[f.path] = f
+                    writes[f.path] = list(writes.get(f.path, [])) + [((0, 0), 'call of partial writer %s' % callees_p[0].name)]
+                    writers[f.path] = f
+                    changed = True
         for p, f in sorted(partial.items()):
-            bad = [c for _, c in prog.callers(f) if c.path not in partial and c.path not in trans and c.path not in ctor]
-            if bad:
-                ctx.add(RULE, f, 'L1-containment', 'violation',
-                        'partial writer %s (writes %s) is called from %s, which is neither a partial writer nor a complete transaction: user code of the caller can observe a half-updated arena'
-                        % (f.name, writes[p][0][1], sorted({c.name for c in bad})), PROPS, f.line)
-            else:
-                ctx.add(RULE, f, 'L1-containment', 'ok', 'partial writer is only called from writers / complete transactions', PROPS, f.line)
+            direct = [w for w in writes[p] if not w[1].startswith('call of partial writer')]
+            ctx.add(RULE, f, 'L1-containment', 'ok', 'partial writer (%s); held to L2' % ('direct arena writes' if direct else 'takes part through the partial writers it calls'), PROPS, f.line, nontrivial=bool(direct))
         # L2
         for p, f in sorted({**partial, **{q: writers[q] for q in trans if q in writers}}.items()):
             b = f.body
             ups = user_points(prog, f)
-            wpts = list(writes[p])
+            wpts = [w for w in writes[p] if not w[1].startswith('call of partial writer')]
             # calls to other writers / transactions are writes too
             for c, t in prog.callees(f):
                 if c.kind == 'call' and (t.path in partial or t.path in trans):
@@ -254,34 +263,17 @@ def fn_visible_mutation(prog, fn, _stack=None):
 
 
 def live_drop_blocks(prog, fn):
-    """blocks on the drop side (item expired) of a liveness branch in fn"""
-    from evalrel import Evaluator, region
+    """blocks on the drop side (item expired) of a liveness branch in fn (direct test or through a predicate helper)"""
+    from rules.gate import liveness_keeps
     b = fn.body
-    sites = L.live_sites(prog, fn)
     out = set()
-    if not sites:
-        return out
-    loops = b.cfg.loops()
-    for bb, d in b.switch_discr.items():
-        ev0 = Evaluator(prog, sites, '<')
-        if not ev0.depends(d):
-            continue
-        fam = sites[0]['family']
-        inner = [(len(body), h) for h, body in loops.items() if bb in body]
-        header = sorted(inner)[0][1] if inner else None
-        keep_blocks = set()
-        drop = None
-        for rel in ('<', '=', '>'):
-            ev = Evaluator(prog, sites, rel)
-            if ev.ev(d) is None:
+    for (idx, acc, keep_succ, sw, tval) in liveness_keeps(prog, fn):
+        for succ in b.cfg.succ[sw]:
+            if succ == keep_succ:
                 continue
-            blocks, edges, _ = region(b, ev, bb, header, loops.get(header, set()))
-            if rel in L.LIVESET[fam]:
-                keep_blocks |= blocks
-            else:
-                drop = blocks if drop is None else (drop | blocks)
-        if drop:
-            out |= (drop - keep_blocks)
+            for x in b.cfg.rpo:
+                if b.cfg.dominates(succ, x) and not b.cfg.dominates(keep_succ, x):
+                    out.add(x)
     return out
 
 
